@@ -20,7 +20,7 @@ pub const FAULT_KINDS: &[&str] = &[
     "exit128_network", "exit128_dubious", "exit129_usage", "exit128_unknown_rev", "exit1_stdout_and_stderr", "exit1_empty_stderr",
     "exit255_nonutf8_stderr", "exit128_big_stderr", "exit0_stderr_fatal", "ok_empty", "ok_nonnumeric", "ok_negative", "ok_huge",
     "ok_nonutf8", "ok_nul", "ok_bigline", "ok_float", "ok_u32max_plus", "torn_ok", "torn_fail", "junk_before", "junk_after", "sigkill",
-    "sigsegv",
+    "sigsegv", "valid_crlf", "valid_bom", "valid_dup_lines", "valid_lead_space", "valid_trailing_spaces", "valid_no_final_newline",
 ];
 
 pub const WHOLE_KINDS: &[&str] = &["missing", "notexec", "dir", "enoexec", "budget3", "all_fail", "all_empty"];
@@ -375,7 +375,7 @@ pub fn judge_child(o: &Outcome, argv: &[String], case: &str, trace_len: usize) -
             if let Err(e) = crate::zron::parse(&s) {
                 return mk("result-only", "stdout is exactly one Zerv RON document", format!("{e}; stdout={:?}", short(&s, 300)));
             }
-        } else if let Some(t) = plain_template(argv).filter(|_| !case.contains(":junk_")) {
+        } else if let Some(t) = plain_template(argv).filter(|_| !case.contains(":junk_") && !case.contains(":valid_dup_lines") && !case.contains(":valid_crlf")) {
             // (a junk-line fault makes git itself hand over a multi-line value: degraded success)
             // a template without newlines renders to exactly one line (git-derived values cannot contain one)
             let lines = s.matches('\n').count();
@@ -446,6 +446,8 @@ fn make_call(rd: &RunDir, cmd: &Cmd, repo: &Path, sim_now: i64, case_dir: &str) 
         rm_cwd: false,
         stdout: crate::proc::Stdout::Capture,
         stderr: crate::proc::Stdout::Capture,
+        exe: None,
+        umask: None,
     };
     match cmd.cwd.as_str() {
         "deleted" => {
